@@ -21,6 +21,7 @@ type FuncUnit struct {
 }
 
 type Verifier struct {
+	costMemo map[*types.Func]int
 	fset       *token.FileSet
 	pkgs       map[string]*packages.Package
 	repoPkgs   map[string]bool
